@@ -37,11 +37,13 @@ func VerifC28RoundTrip() {
 	root := "/root"
 	ncmd := int(rt.Fix(rt.Int("ncmd", 1, 2)))
 	maxData, maxShapes, maxName := int64(3), int64(2), int64(2)
-	if rt.Tier() == 1 {
-		maxData, maxShapes, maxName = 8, 3, 4
-	}
 	cmds := make([]*wal.WriteCommand, ncmd)
 	for i := range cmds {
+		if rt.Tier() == 1 && i == 0 {
+			maxData, maxShapes, maxName = 5, 3, 3 // thorough: wider first command, second as in the quick tier
+		} else {
+			maxData, maxShapes, maxName = 3, 2, 2
+		}
 		dlen := int(rt.Fix(rt.Int(vnm("dlen", i), 0, maxData)))
 		ns := int(rt.Fix(rt.Int(vnm("nshapes", i), 1, maxShapes)))
 		shapes := make([]io.DataShape, ns)
